@@ -662,7 +662,7 @@ Definition emit_token_body (fuel : nat) (t : token) : M unit :=
           match emit_instruction m f value pc with
           | (bytes, None) => emit full_span bytes
           | (_, Some InstrPanic) => abort FPanic
-          | (_, Some TooFar) => err1 DBranchTooFar (Some mspan) [] [value]
+          | (_, Some TooFar) => emit full_span branch_too_far_bytes ;;; err1 DBranchTooFar (Some mspan) [] [value]
           | (bytes, Some InvalidInstruction) => emit full_span bytes ;;; err1 DInvalidInstruction (Some full_span) [] []
           end
       end
